@@ -97,7 +97,8 @@ class C11(Prop):
             "all blocks of <= 2 octets after each prefix (thorough: all 3-octet blocks after 00 00), valid encodings in every "
             "representation/length form with T/N/H flips, index +-, non-shortest integers, truncation at every offset, "
             "appended octets, random strings; limits mostly 2^62-1 plus small ones; connection level: invalid sections at "
-            "the three receive sites; non-trivial = implementation result is not bad-op; distinct = distinct case lines")
+            "the three receive sites; histories of 2..8 send_request calls on ONE client handle with locally refused requests "
+            "among them: every request stream carries the encoding of its own field list; non-trivial = implementation result is not bad-op; distinct = distinct case lines")
     trusted = ["bytes::{Buf,BufMut} for Bytes / Vec<u8>", "Debug rendering of the private Huffman error type"]
     assumptions = ["usize is 64 bits", "field sections are shorter than 2^55 octets (running size stays below 2^64)",
                    "C15 theorems as stated in H3.Props.C15 (hypothesis C15Facts)"]
@@ -317,6 +318,10 @@ class C11(Prop):
         self._enc(tier, rng, L, table)
         self._dec(tier, rng, L, table)
         self._lim(tier, rng, L)
+        # second round: what h3 WRITES for a request is the encoding of that request's field list, whatever was asked of
+        # the same SendRequest handle before (accepted request, request refused locally for its size, further requests)
+        from props.c10 import history_lines
+        L += history_lines(rng, 3000 if tier == "thorough" else 300)
         return L
 
     # ------------------------------------------------------------------ projection / statistics
@@ -331,6 +336,9 @@ class C11(Prop):
         w = line.split()
         r = impl.split(" ")
         if w[0] == "lim":
+            if line.count(" snd.R:") >= 2:
+                calls = ["A" if "=req:" in t else "R" for t in impl.split(" | ")[0].split() if t.startswith("snd.R=")]
+                return "lim/history/" + "".join(calls)
             return "lim/" + w[1] + "/" + ("closed" if "closed=[512]" in impl else "open")
         if w[1] == "range":
             return "qpack/range"
@@ -353,6 +361,9 @@ class C11(Prop):
     def shrink_candidates(self, line):
         w = line.split()
         out = []
+        if w[0] == "lim":
+            from props.c10 import history_shrinks
+            return history_shrinks(line)
         if w[0] != "qpack":
             return out
         if w[1] == "range":
